@@ -587,6 +587,8 @@ fn random_run(rng: &mut Rng, prof: &Profile, sink: &mut Sink<QuantEngine>) {
         }
         let kind = if rng.chance(0.015) {
             7
+        } else if rng.chance(0.015) {
+            8
         } else if chaos {
             *rng.pick(&[0usize, 2, 4, 6, 6, 6])
         } else if focus == 19 {
@@ -701,6 +703,24 @@ fn random_run(rng: &mut Rng, prof: &Profile, sink: &mut Sink<QuantEngine>) {
                     }
                     t.push(Ev::Convert(v.to_bits()));
                     t.push(Ev::Convert((v + 0.001).to_bits()));
+                }
+            }
+            8 => {
+                // a key held for a long time (a power-of-two-ish number of conversions inside the note's window),
+                // then the player switches the sounding pitch class off
+                let n = rng.near_pow2(false);
+                let note = rng.range(12, 119) as f64;
+                let v0 = note / 12.0 + SEMI * 0.5;
+                for _ in 0..n {
+                    let v = v0 + rng.uniform(-0.3, 0.3) * SEMI;
+                    t.push(Ev::Convert((v as f32).to_bits()));
+                }
+                if let Some(p) = t.exec().prev() {
+                    t.push(Ev::Forbid(vec![p % 12]));
+                    for _ in 0..rng.range(1, 4) {
+                        let v = v0 + rng.uniform(-0.3, 0.3) * SEMI;
+                        t.push(Ev::Convert((v as f32).to_bits()));
+                    }
                 }
             }
             5 => {
